@@ -304,6 +304,43 @@ func (x *Exec) loadGlobal(name string, h *Heap) (AV, bool) {
 	if g == nil {
 		return AV{}, false
 	}
+	// a sentinel error: a never-written package-level error variable whose
+	// initialiser constructs an error is not nil
+	if isErrorType(g.Type().(*types.Pointer).Elem()) && x.c.globalNeverWrittenIn(g) {
+		if pkg := x.c.pkgOfGlobal(g); pkg != nil {
+			for _, f := range pkg.Syntax {
+				for _, d := range f.Decls {
+					gd, ok := d.(*ast.GenDecl)
+					if !ok || gd.Tok != token.VAR {
+						continue
+					}
+					for _, sp := range gd.Specs {
+						vs := sp.(*ast.ValueSpec)
+						for i, n := range vs.Names {
+							if n.Name != g.Name() || i >= len(vs.Values) || pkg.TypesInfo.Defs[n] != g.Object() {
+								continue
+							}
+							if call, ok := ast.Unparen(vs.Values[i]).(*ast.CallExpr); ok {
+								if sel, ok := call.Fun.(*ast.SelectorExpr); ok {
+									if fo, ok := pkg.TypesInfo.Uses[sel.Sel].(*types.Func); ok && fo.Pkg() != nil {
+										q := fo.Pkg().Path() + "." + fo.Name()
+										if q == "errors.New" || q == "fmt.Errorf" {
+											return AV{k: 'E', tri: 2}, true
+										}
+									}
+								}
+							}
+							if ue, ok := ast.Unparen(vs.Values[i]).(*ast.UnaryExpr); ok && ue.Op == token.AND {
+								if _, ok := ue.X.(*ast.CompositeLit); ok {
+									return AV{k: 'E', tri: 2}, true // &someError{...}
+								}
+							}
+						}
+					}
+				}
+			}
+		}
+	}
 	cg := x.constGlobalOf(g)
 	if !cg.ok {
 		return AV{}, false
